@@ -142,12 +142,16 @@ NOT_CLAIMED = {}   # property id -> reason, for properties without a check
 
 PROPS["C07"] = dict(
     module="TmcgProps.C07",
-    areas=[("rng", {"quick": 1500, "thorough": 60000}, [])],
+    areas=[("rng", {"quick": 1500, "thorough": 60000}, [], "san")],
     obligations=[
         ("Tmcg.C07.nomodbias_accept_set", "full"),
         ("Tmcg.C07.nomodbias_uniform", "full"),
         ("Tmcg.C07.randomMod_range", "full"),
         ("Tmcg.C07.randomMod_throws", "full"),
+        ("Tmcg.C07.fisherYates_bijective", "full"),
+        ("Tmcg.C07.rotation_uniform", "full"),
+        ("Tmcg.C07.randomm_range_and_bias", "full"),
+        ("Tmcg.C07.randomb_in_range", "full"),
     ],
     predicate=pred_rng,
     final=final_rng,
@@ -159,4 +163,314 @@ PROPS["C07"] = dict(
     assumptions=["bytes returned by libgcrypt are uniform and independent (served by the harness in the correspondence run)",
                  "unsigned long is 64 bit (ULONG_BITS generated from the compiler and checked)"],
     trusted=["model of `unsigned long` arithmetic modulo 2^64 (Tmcg/Model/Rng.lean)"],
+)
+
+
+# ---------------------------------------------------------------------------- helpers
+def inv_mod(a, p):
+    try:
+        return pow(a, -1, p)
+    except ValueError:
+        return None
+
+
+def tag_of(a):
+    return a[-1][4:] if a and a[-1].startswith("tag:") else ""
+
+
+# ---------------------------------------------------------------------------- C01
+def pred_c01(line, st):
+    op, a, r = toks(line)
+    if op == "vtmf.open":
+        p, q, g, w, T, priv = int(a[0]), int(a[1]), int(a[2]), int(a[3]), int(a[4]), int(a[5])
+        xs, rs, present, opener = ilist(a[6]), ilist(a[7]), ilist(a[9]), int(a[10])
+        if is_err(r) or r[0] in ("share-refused", "key-refused"):
+            return "opening failed: %s" % r[0]
+        typ = int(r[4])
+        k = len(xs)
+        allp = sorted(present) == [j for j in range(k) if j != opener]
+        if allp:
+            if typ != T:
+                return "all %d players contributed but the card opens to %d, created with %d" % (k, typ, T)
+            return None
+        # missing share: sentinel unless the exponent T + R*X hits the message space
+        R = sum(rs)
+        X = sum(xs[j] for j in range(k) if j != opener and j not in present)
+        e = (T + R * X) % q
+        expect = e if e < (1 << w) else (1 << w)
+        # (g^t injective on t<q; first match of the linear search is e itself)
+        if typ != expect:
+            return "missing shares: expected %d (sentinel %d), got %d" % (expect, 1 << w, typ)
+        return None
+    if op == "tmcg.open":
+        T = int(a[1])
+        if is_err(r):
+            return "opening failed"
+        if int(r[-1]) != T:
+            return "QR-encoded card created with type %d opens to %s" % (T, r[-1])
+        return None
+    if op == "tmcg.secret":
+        return None if r == ["1"] else "card secret's b-columns do not XOR to zero"
+    return None
+
+
+# ---------------------------------------------------------------------------- C02
+def pred_c02(line, st):
+    op, a, r = toks(line)
+    if op in ("rng.fy", "rng.rot"):
+        return pred_rng(line, st)
+    if op == "stack.types":
+        types, idx, out = ilist(a[0]), ilist(a[1]), ilist(r[0])
+        if len(out) != len(types):
+            return "mixed stack has another size"
+        if out != [types[j] for j in idx]:
+            return "card i of the mixed stack does not open to the type of input card idx[i]"
+        if sorted(idx) == list(range(len(idx))) and sorted(out) != sorted(types):
+            return "multiset of types not preserved"
+        return None
+    if op == "stack.mixglue-equal":
+        return None if r == ["1"] else "mixing twice differs from mixing with the glued secret"
+    if op == "stack.idxok":
+        idx = ilist(a[0]); n = len(idx)
+        want = 1 if (0 < n <= 512 and sorted(idx) == list(range(n))) else 0
+        if int(r[0]) != want:
+            return "importer %s an index component that is %sa bijection" % ("accepted" if int(r[0]) else "refused", "" if want else "not ")
+        return None
+    return None
+
+
+# ---------------------------------------------------------------------------- C08
+def pred_c08(line, st):
+    op, a, r = toks(line)
+    if op != "vtmf.key":
+        return None
+    p, q, g, x0 = int(a[0]), int(a[1]), int(a[2]), int(a[3])
+    ops = plist(a[4])
+    if is_err(r):
+        return "key history failed"
+    h, n, rets = int(r[0]), int(r[1]), ilist(r[2])
+    eh = pow(g, x0, p)
+    stored = {}
+    for o, ret in zip(ops, rets):
+        f = o.split(":")
+        if f[0] == "a":
+            fp, key = int(f[1]), int(f[2])
+            if ret != 1:
+                return "bookkeeping: accepted op with return 0"
+            if fp in stored:
+                st["dups"] = st.get("dups", 0) + 1   # duplicate corner: multiplied again, stored once
+            eh = eh * key % p
+            stored[fp] = key
+        elif f[0] == "x":
+            if ret != 0:
+                return "refused contribution returned true"
+        elif f[0] == "r":
+            fp = int(f[1])
+            if fp in stored:
+                if ret != 1:
+                    return "removal of a stored key refused"
+                eh = eh * inv_mod(stored[fp], p) % p
+                del stored[fp]
+            elif ret != 0:
+                return "removal of an unknown key returned true"
+    if h != eh:
+        return "common key is not own key times the product of accepted, not removed keys"
+    if n != len(stored):
+        return "number of stored keys %d != %d" % (n, len(stored))
+    return None
+
+
+# ---------------------------------------------------------------------------- C09
+def bitlen(x):
+    return max(1, abs(x).bit_length())
+
+
+def pred_c09(line, st):
+    op, a, r = toks(line)
+    if op == "arith.spowm":
+        m, x, p = int(a[0]), int(a[1]), int(a[2])
+        if p % 2 == 0:
+            return None if r[0] == "throw:invalid_argument" else "even modulus must be refused"
+        if p > 1 and math.gcd(m, p) == 1:
+            if is_err(r):
+                return "spowm refused a base coprime to the modulus (exponent %d)" % x
+            if int(r[0]) != pow(m, x, p):
+                return "spowm differs from plain exponentiation"
+        elif not is_err(r) and p > 1 and x >= 0 and int(r[0]) != pow(m, x, p):
+            return "spowm returned a wrong residue"
+        return None
+    if op == "arith.fpowm":
+        kind, base, t, m, x, p = a[0], int(a[1]), int(a[2]), int(a[3]), int(a[4]), int(a[5])
+        if p == 0:
+            return None
+        if m != base:
+            return None if r[0] == "throw:invalid_argument" else "wrong base must be refused"
+        if bitlen(x) > 2048:
+            return None if r[0] == "throw:invalid_argument" else "exponent beyond the limit must be refused"
+        ts = max(1, min(t, 2048))
+        if bitlen(x) <= ts and p > 1 and (math.gcd(base, p) == 1 or (x >= 0 and kind != "fspowm")):
+            if is_err(r):
+                return "%s refused a legal input" % kind
+            if int(r[0]) != pow(base, x, p):
+                return "%s differs from plain exponentiation" % kind
+        return None
+    if op == "arith.powm":
+        b, e, p = int(a[0]), int(a[1]), int(a[2])
+        if not is_err(r) and int(r[0]) != pow(b, e, abs(p)):
+            return "mpz_powm model check failed"
+        return None
+    return None
+
+
+# ---------------------------------------------------------------------------- C03 / C04 / C05
+VERIFY_OPS = ("zk.nizk.verify", "zk.cp.verify", "zk.mask.verify", "zk.remask.verify", "zk.dec.verify",
+              "zk.or.verify", "zk.key.final", "zk.se.verify")
+
+
+def se_bits(a):
+    # rounds token: [commit:bit:hex,...] is the 8th argument of zk.se.verify
+    return [int(e.split(":")[1]) for e in plist(a[8])]
+
+
+def pred_c03(line, st):
+    op, a, r = toks(line)
+    if op in VERIFY_OPS and tag_of(a) == "honest":
+        if not r or r[0] != "1":
+            return "honest proof rejected (%s)" % (r[0] if r else "?")
+    if op == "zk.key.respond" and tag_of(a) == "honest":
+        q, c = int(a[1]), int(a[5])
+        if abs(c) < q and (not r or r[0] == "refuse"):
+            return "honest prover refused a legal challenge"
+    return None
+
+
+def pred_c04(line, st):
+    op, a, r = toks(line)
+    t = tag_of(a)
+    if op not in VERIFY_OPS or not t.startswith("cheat:"):
+        return None
+    acc = bool(r) and r[0] == "1"
+    if op == "zk.se.verify":
+        bits = se_bits(a)
+        base = t[6:].split("+")[0]
+        if base in ("duplicated-card", "substituted-card"):
+            must_reject = any(b == 1 for b in bits) or "+mut" in t and False
+        elif base == "noncyclic-as-rotation":
+            must_reject = any(b == 0 for b in bits)
+        else:
+            must_reject = True
+        if "+mut" in t:
+            return None
+        if must_reject and acc:
+            return "false statement (%s) accepted although a round asked for the side the prover cannot answer" % base
+        if not must_reject and not acc:
+            st["lucky"] = st.get("lucky", 0) + 1
+        return None
+    if acc:
+        return "proof of a false statement accepted (%s)" % t
+    return None
+
+
+EQUIV_PLUSP = {("zk.mask.verify", "m"), ("zk.remask.verify", "c1"), ("zk.remask.verify", "c2")}
+
+
+def pred_c05(line, st):
+    op, a, r = toks(line)
+    t = tag_of(a)
+    if op not in VERIFY_OPS:
+        return None
+    acc = bool(r) and r[0] == "1"
+    if t.startswith("equiv:"):
+        if not acc:
+            return "equivalent representation rejected (%s)" % t
+        return None
+    if not t.startswith("mut:"):
+        return None
+    _, field, how = (t.split(":") + ["", ""])[:3]
+    if how == "plusp" and (op, field) in EQUIV_PLUSP:
+        return None     # same group element modulo p, never transmitted: equivalent representative
+    if op == "zk.se.verify" and field == "s":
+        if not any(b == 0 for b in se_bits(a)):
+            return None  # the original stack is only looked at in rounds with challenge 0
+    if acc:
+        return "verification still succeeds after mutation %s" % t
+    return None
+
+
+ZK_AREAS = [("zk", {"quick": 25, "thorough": 400}, [], "fast")]
+ZK_TRUST = ["hash oracle replay: the model recomputes every Fiat-Shamir query string and takes the answer from the run",
+            "the zk area runs the non-sanitized build (the library allocates 640 MB line buffers per stack read, which ASan makes very slow)"]
+LEVEL_NOTE = ("Trusted: Lean kernel, propext/Classical.choice/Quot.sound, the C++ harness and its libgcrypt interposer, the compiled Lean driver; "
+              "agreement model/code is established on the generated cases only (distribution in the evidence file).")
+
+PROPS["C01"] = dict(
+    module="TmcgProps.C01",
+    areas=[("vtmf", {"quick": 150, "thorough": 3000}, [], "san"), ("tmcg", {"quick": 200, "thorough": 4000}, [], "san")],
+    obligations=[("Tmcg.C01.vtmf_open_correct", "full"), ("Tmcg.C01.vtmf_open_missing_share", "full"),
+                 ("Tmcg.C01.vtmf_players_spec", "full"), ("Tmcg.C01.remask_preserves_plain", "full")],
+    predicate=pred_c01,
+    level_text="Theorem in Lean 4: in the executable model of the VTMF (all exponentiation variants included) a card of type T masked by any chain opens to T with all shares, "
+               "and to the sentinel (up to an explicit exceptional set) with shares missing - for every valid group, player count, secrets, chain. "
+               "Model tied to the code by running whole games on the real classes and diffing every intermediate value.",
+    level_note=LEVEL_NOTE + " Primality of p, q is a hypothesis (C06). The verification of the opening proofs is C03-C05.",
+    assumptions=["p, q prime and g of order q (ValidGroup); decided for real parameter sets by C06 + probable-prime test"],
+)
+PROPS["C02"] = dict(
+    module="TmcgProps.C02",
+    areas=[("shuffle", {"quick": 150, "thorough": 3000}, [], "san")],
+    obligations=[("Tmcg.C02.mix_opens_to_source", "full"), ("Tmcg.C02.mix_preserves_multiset", "full"),
+                 ("Tmcg.C02.nonbijective_drops", "full"), ("Tmcg.C02.fresh_secret_is_bijection", "full"),
+                 ("Tmcg.C02.fresh_rotation_is_shift", "full"), ("Tmcg.C02.import_accepts_iff_bijection", "full"),
+                 ("Tmcg.C02.mix_glue", "full"), ("Tmcg.C02.glue_is_bijection", "full")],
+    predicate=pred_c02,
+    level_text="Theorems in Lean 4 about the executable model of TMCG_MixStack / GlueStackSecret / CreateStackSecret / StackSecret::import: "
+               "for every size and secret the i-th mixed card opens to the designated source type, bijective secrets preserve the multiset, "
+               "generated secrets are bijections (rotations are shifts by the reported offset), the importer accepts exactly bijections, mix(glue) = mix∘mix. "
+               "Correspondence: real functions vs model on generated stacks, all n^n index vectors for n<=4, served raw words.",
+    level_note=LEVEL_NOTE,
+    assumptions=["masking preserves the card type (proved for the discrete-log encoding: Tmcg.C01.remask_preserves_plain)"],
+)
+PROPS["C03"] = dict(
+    module="TmcgProps.C03",
+    areas=ZK_AREAS,
+    obligations=[("Tmcg.C03.nizk_complete", "full"), ("Tmcg.C03.cp_complete", "full"), ("Tmcg.C03.mask_complete", "full"),
+                 ("Tmcg.C03.remask_complete", "full"), ("Tmcg.C03.decrypt_complete", "full"),
+                 ("Tmcg.C03.or_first_complete", "full"), ("Tmcg.C03.or_second_complete", "full"),
+                 ("Tmcg.C03.key_interactive_complete", "full")],
+    predicate=pred_c03,
+    level_text="Completeness theorems in Lean 4 for the VTMF's proofs of knowledge (key NIZK, Chaum-Pedersen in both modes, masking, re-masking, decryption, OR, interactive key proof): "
+               "for every valid group, witness, coin and hash the model verifier accepts the model prover's transcript. Prover and verifier of the real library are each compared "
+               "separately with the model (same coins, same oracle answers, byte-identical hash queries). Partial: Groth/Hoogh shuffle arguments, Rabin key proofs, Pedersen/JL protocols are covered by correspondence only so far.",
+    level_note=LEVEL_NOTE,
+    trusted=ZK_TRUST,
+    assumptions=["partial: completeness theorems exist for the discrete-log VTMF proofs; cut-and-choose stack equality, Groth, VRHE, Rabin-key and commitment protocols: correspondence (real prover -> real verifier, and each vs model where modelled) only"],
+)
+PROPS["C08"] = dict(
+    module="TmcgProps.C08",
+    areas=[("vtmf", {"quick": 150, "thorough": 3000}, [], "san")],
+    obligations=[("Tmcg.C08.key_refines_product", "full"), ("Tmcg.C08.all_orders_same_key", "full"),
+                 ("Tmcg.C08.all_players_agree", "full"), ("Tmcg.C08.refused_is_noop", "full"),
+                 ("Tmcg.C08.outside_group_refused", "full"), ("Tmcg.C08.remove_restores", "full"),
+                 ("Tmcg.C08.remove_unknown", "full"), ("Tmcg.C08.duplicate_key_behaviour", "full")],
+    predicate=pred_c08,
+    level_text="Refinement theorem in Lean 4: for every history of contributions, refusals and removals the common key equals own key times the product of accepted, not removed keys; "
+               "order independence, agreement of all players, refusal = no-op, removal restores. Correspondence: random histories (valid, corrupted, duplicate, removal) on the real class.",
+    level_note=LEVEL_NOTE,
+    assumptions=["fingerprints of distinct keys differ (hash injective on the keys of a history); the duplicate-key corner is stated separately"],
+)
+PROPS["C09"] = dict(
+    module="TmcgProps.C09",
+    areas=[("arith", {"quick": 600, "thorough": 30000}, [], "san")],
+    obligations=[("Tmcg.C09.powm_is_power", "full"), ("Tmcg.C09.powm_neg_is_inverse_power", "full"),
+                 ("Tmcg.C09.spowm_eq_powm", "full"), ("Tmcg.C09.spowm_refusals", "full"),
+                 ("Tmcg.C09.fpowm_eq_powm", "full"), ("Tmcg.C09.fspowm_eq_powm", "full"),
+                 ("Tmcg.C09.fpowm_ui_eq_powm", "full"), ("Tmcg.C09.fpowm_wrong_base_refused", "full"),
+                 ("Tmcg.C09.fpowm_exponent_too_large", "full"), ("Tmcg.C09.fpowm_beyond_table_is_zero", "full"),
+                 ("Tmcg.C09.baseblind_eq_powm", "full")],
+    predicate=pred_c09,
+    level_text="Theorems in Lean 4: every modular-exponentiation variant of the model (constant-time with dummy operations, table-based, always-multiply, unsigned, base-blinded) equals plain "
+               "modular exponentiation for every base coprime to the modulus and every exponent sign; refusals are exceptions, never wrong values. Model vs real functions: exhaustive small moduli + random big cases. "
+               "Partial: square roots, interpolation, prime generators, hex conversion and the big-integer wrapper are not yet modelled.",
+    level_note=LEVEL_NOTE + " GMP's mpz_powm/mpz_invert/mpz_jacobi are modelled and the model layer itself is compared with GMP.",
+    assumptions=["partial: sqrt / interpolation / prime generation / TMCG_Bigint not yet covered"],
 )
